@@ -1,7 +1,7 @@
 /-
 C01 — PerfectMatchingPrinciple(G) on an arbitrary simple graph object.
 -/
-import Lemmas.FamGraph
+import Lemmas.FamGraphInv
 namespace Cnfgen.C01
 open Cnfgen Cnfgen.Fam
 
@@ -55,5 +55,59 @@ theorem pm_cnf_spec (G : SimpleG) (hg : GoodSimple G) (α : Assign) :
 theorem pm_opb_spec (G : SimpleG) (hg : GoodSimple G) (α : Assign) :
     (pmF G).toOPB.holds α = true ↔ PMSpec G (pmRel G α) := by
   rw [Formula.toOPB_holds α _ (pm_wf G hg)]; exact pm_spec G hg α
+
+/-- the hypothesis holds for every graph object the real class can represent:
+`Graph(n)` followed by any sequence of successful `add_edge` calls -/
+theorem goodSimple_ofEdges (n : Nat) (es : List (Nat × Nat)) (G : SimpleG)
+    (h : SimpleG.ofEdges n es = .ok G) : GoodSimple G := Fam.goodSimple_ofEdges n es G h
+
+theorem pm_spec_ofEdges (n : Nat) (es : List (Nat × Nat)) (G : SimpleG)
+    (h : SimpleG.ofEdges n es = .ok G) (α : Assign) :
+    (pmF G).holds α = true ↔ PMSpec G (pmRel G α) :=
+  pm_spec G (goodSimple_ofEdges n es G h) α
+
+/-- non-vacuity: the path 1-3, 3-2, 2-4 with its perfect matching {1,3}, {2,4} -/
+example : ∃ G, SimpleG.ofEdges 4 [(3, 1), (2, 4), (2, 3)] = .ok G ∧
+    PMSpec G (fun a b => (min a b, max a b) = (1, 3) ∨ (min a b, max a b) = (2, 4)) := by
+  refine ⟨_, rfl, ?_⟩
+  intro w h1 h2
+  have h2' : w ≤ 4 := h2
+  have : w = 1 ∨ w = 2 ∨ w = 3 ∨ w = 4 := by omega
+  rcases this with rfl | rfl | rfl | rfl
+  · exact ⟨3, by decide, by decide, by decide⟩
+  · exact ⟨4, by decide, by decide, by decide⟩
+  · exact ⟨1, by decide, by decide, by decide⟩
+  · exact ⟨2, by decide, by decide, by decide⟩
+
+/-- every perfect matching (a set `R` of edges, given on ordered pairs `u < v`) is described by a
+satisfying assignment -/
+theorem pm_realises (G : SimpleG) (hg : GoodSimple G) (R : Nat → Nat → Bool)
+    (h : PMSpec G (fun a b => R (min a b) (max a b) = true)) :
+    (pmF G).holds ((SMap.mk (auxBip G) 1).assignOf R) = true := by
+  rw [pm_spec G hg]
+  have key : ∀ w x, 1 ≤ w → w ≤ G.n → x ∈ G.nbrs w →
+      (pmRel G ((SMap.mk (auxBip G) 1).assignOf R) w x ↔ R (min w x) (max w x) = true) := by
+    intro w x h1 h2 hx
+    have hs := hg.sym w x ⟨h1, h2, hx⟩
+    have hne : x ≠ w := fun e => hg.noloop w (e ▸ hx)
+    have hedge : 1 ≤ min w x ∧ min w x ≤ (auxBip G).l ∧ max w x ∈ (auxBip G).rnbrs (min w x) := by
+      rw [auxBip_l, auxBip_rnbrs]
+      rcases Nat.lt_or_gt_of_ne hne with hlt | hgt
+      · have e1 : min w x = x := by omega
+        have e2 : max w x = w := by omega
+        rw [e1, e2, if_pos ⟨hs.1, hs.2.1⟩]
+        exact ⟨hs.1, hs.2.1, List.mem_filter.2 ⟨hs.2.2, by simpa using hlt⟩⟩
+      · have e1 : min w x = w := by omega
+        have e2 : max w x = x := by omega
+        rw [e1, e2, if_pos ⟨h1, h2⟩]
+        exact ⟨h1, h2, List.mem_filter.2 ⟨hx, by simpa using hgt⟩⟩
+    have := (SMap.mk (auxBip G) 1).assignOf_var R hedge.1 hedge.2.1 hedge.2.2
+    simp only [SMap.var] at this
+    simp only [pmRel, this]
+  intro w h1 h2
+  obtain ⟨x, hx, hR, hu⟩ := h w h1 h2
+  refine ⟨x, hx, (key w x h1 h2 hx).2 hR, ?_⟩
+  intro y hy hy'
+  exact hu y hy ((key w y h1 h2 hy).1 hy')
 
 end Cnfgen.C01
